@@ -43,7 +43,10 @@ input, not proved; A = assumed)
 * "every row/column equals the position obtained by counting newlines" ....................... P(h): `rowcol_by_newlines` (+ `yields_total`,
   `extentOf_snoc`) under h = `Yields` (every LEAF's padding and size measure consecutive pieces of the text).  The lexer half of h is P
   (`LexYields.lean`: `lexer_position_is_measure`, `token_measures`, `lexed_leaf_yields` over the lexer.c port of C09/C13: default range, UTF-8, any chunking);
-  that the parser assembles leaves from consecutive lexer positions is A; the CONCLUSION is judged on every raw node of every tree (`rowcol`).  `balance_yields`: rebalancing keeps h
+  the ASSEMBLY half of h is P for an abstract shift / reduce / accept stack machine over the `newNode` port (`Round11.lean`: `newNode_sized`,
+  `newNode_yields`, `run_tiles`, `run_rowcol`, `accept_tiles`, `parse_tiles`, `shiftLexed_ok`: every tree such a machine can build tiles the text
+  consumed); that every GLR version performs only such operations and lexes from where the consumed text ends is A; the CONCLUSION is judged on
+  every raw node of every tree (`rowcol`).  `balance_yields`: rebalancing keeps h
 * "every byte that is not skipped whitespace/extra lies inside a leaf" ....................... J only (`padding_skippable`,
   `trailing_skippable`; two known findings of the lexer generator)
 * "a literal-string token node covers exactly that string" ................................... J only (`literal`; subject of C14)
